@@ -887,13 +887,13 @@ def check_field(case, rec):
 
 
 SUBS = [
-    Sub("elementwise", check_elementwise, gen=elementwise_cases, quick=1500, thorough=12000, shards=6),
-    Sub("contract", check_contract, gen=contract_cases, quick=1200, thorough=10000, shards=6),
-    Sub("tensorfn", check_tensorfn, gen=tensorfn_cases, quick=800, thorough=8000, shards=4),
-    Sub("reduce", check_reduce, gen=reduce_cases, quick=1500, thorough=12000, shards=6),
-    Sub("protocol", check_protocol, gen=protocol_cases, quick=500, thorough=5000, shards=2),
-    Sub("broadcast", check_broadcast, gen=broadcast_cases, quick=600, thorough=6000, shards=4),
-    Sub("fieldobj", check_field, gen=field_cases, quick=400, thorough=4000, shards=2),
+    Sub("elementwise", check_elementwise, gen=elementwise_cases, quick=6000, thorough=30000, shards=6),
+    Sub("contract", check_contract, gen=contract_cases, quick=5000, thorough=25000, shards=6),
+    Sub("tensorfn", check_tensorfn, gen=tensorfn_cases, quick=4000, thorough=20000, shards=4),
+    Sub("reduce", check_reduce, gen=reduce_cases, quick=6000, thorough=30000, shards=6),
+    Sub("protocol", check_protocol, gen=protocol_cases, quick=1500, thorough=8000, shards=2),
+    Sub("broadcast", check_broadcast, gen=broadcast_cases, quick=2000, thorough=10000, shards=4),
+    Sub("fieldobj", check_field, gen=field_cases, quick=1200, thorough=6000, shards=2),
 ]
 
 LEVEL_TEXT = ("Hypothesis-generated FeArray expressions (arithmetic, ufuncs, comparisons, @, dot, ddot, TensorProd, .T, "
